@@ -1,4 +1,5 @@
 import UtpVerif.Lemmas.Rx
+import UtpVerif.Props.C09
 /-!
 # C01 (end to end) — what the application reads is a prefix of what was written
 
@@ -13,11 +14,12 @@ sender-side theorems (`C01.wire_payload_is_stream_slice`, `C06.content_stable_*`
 carries the same slice of the written stream and that slices are consecutive; `consecutive_slices` turns that
 into the labelling hypothesis, so the last theorem speaks about the written stream itself.
 
-What is NOT covered here: FIN/EOF and error items (C17, C03), the known finding D2 (a re-split probe breaks
-the sender's labelling), and the step from real 16-bit sequence numbers to ghost indices (C09).
+The step from real 16-bit sequence numbers to ghost indices is `offset_of_real_sequence_numbers` (with C09).
+What is NOT covered here: FIN/EOF and error items (C17, C03) and the known finding D2 (a re-split probe breaks
+the sender's labelling).
 -/
 namespace UtpVerif.Props.C01E2E
-open UtpVerif.Model UtpVerif.Gen UtpVerif.Lemmas.Rx
+open UtpVerif.Model UtpVerif.Gen UtpVerif.Lemmas.Rx UtpVerif.Props.C09
 
 /-- the stream the packets make up: packets `0 … n-1` one after the other -/
 def concatUpTo (pkt : Nat → List Nat) : Nat → List Nat
@@ -489,6 +491,23 @@ theorem read_is_prefix_of_written_slices (stream : List Nat) (pkt : Nat → List
   read_is_prefix_of_written stream pkt
     (fun n => by rw [consecutive_slices stream pkt off h0 hmono hpkt n]; exact List.take_prefix _ _)
     maxRxBytes mss evs s' hr
+
+/-! ### The ghost indices are what the 16-bit arithmetic computes -/
+
+/-- **From real 16-bit sequence numbers to ghost indices**: a data packet with ghost index `g` carries sequence
+number `isn + 1 + g` (mod 2^16); the connection has consumed `lc` packets, so its `last_consumed_remote_seq_nr`
+is `isn + lc` (mod 2^16). The offset the connection computes for the reassembly queue,
+`seq_nr - (last_consumed + 1)`, is exactly `g - lc` whenever the two are within the tolerance of each other -
+whatever the initial sequence number, wrap included. -/
+theorem offset_of_real_sequence_numbers (isn g lc : Nat)
+    (hd : ((g : Int) - lc).natAbs ≤ WRAP_TOLERANCE) :
+    seqSub ((isn + 1 + g) % 65536) (wadd ((isn + lc) % 65536) 1) = (g : Int) - lc := by
+  have ht : WRAP_TOLERANCE ≤ 32767 := default_windows_within_tolerance.1
+  have ha : (isn + 1 + g) % 65536 < 65536 := Nat.mod_lt _ (by decide)
+  have hb : wadd ((isn + lc) % 65536) 1 < 65536 := by unfold wadd; omega
+  have hm : modDist ((isn + 1 + g) % 65536) (wadd ((isn + lc) % 65536) 1) = (g : Int) - lc := by
+    unfold modDist wsub wadd; simp only; (repeat' split) <;> omega
+  rw [seqSub_eq_modDist _ _ ha hb (by rw [hm]; exact hd), hm]
 
 /-! ### Non-vacuity: reordered and duplicated arrivals, partial reads -/
 
